@@ -58,8 +58,9 @@ def sym_kernel(ip, kind, keys=("a", "b"), name="k", **extra):
     args = [tuple(keys)]
     if kind == "MH":
         kw["da_tune_step_size"] = extra.pop("da_tune_step_size", True)
+        pkeys = tuple(keys) + tuple(extra.pop("extra_proposal_keys", ()))  # entries the user's proposal returns beyond the kernel's position keys
         args.append(PyFn(lambda ip_, key, st, step: new_obj(ip_, "liesel/goose/mh_kernel.py::MHProposal",
-                         position={k: ip_.uf("user_prop", z3.Const(f"str:{k}", U), ip_.to_U(key), ip_.to_U(st), step) for k in keys},
+                         position={k: ip_.uf("user_prop", z3.Const(f"str:{k}", U), ip_.to_U(key), ip_.to_U(st), step) for k in pkeys},
                          log_correction=ip_.uf("user_corr", ip_.to_U(key), ip_.to_U(st), step, sort=ip_.ctx.float_sort)), "proposal_fn"))
     if kind == "IWLS":
         kw["chol_info_fn"] = extra.pop("chol_info_fn", None)
